@@ -583,13 +583,22 @@ def run(ctx):
         # tier B: default and distance-1 deviations (distance 2 thorough),
         # dims and solids chosen so that each supported combination appears
         devs = hamming_configs(menu, 2 if ctx.thorough else 1)
+        if not ctx.thorough:
+            # quick: also every pair of values of two enumerated options
+            # (Riemann solver x limiter x interpolation ...): such options
+            # select code inside one equation, they interact
+            devs += [o for o in hamming_configs(menu, 2)
+                     if len(o) == 2 and all(k in ENUMS for k in o)]
         for o in devs:
             if ctx.thorough or not o:
                 cases = [(2, False), (2, True), (1, False), (3, False)]
                 if ctx.thorough:
                     cases += [(1, True), (3, True)]
             else:
-                cases = [(2, True)]
+                # deviations in 2-D with a solid - except for the
+                # gas-dynamics schemes, whose two-step run is only judged
+                # without solid arrays (run_not_judged)
+                cases = [(2, name not in GAS)]
             for dim, solid in cases:
                 rjobs.append((mod, name, dim, solid, o))
     viol = {}
@@ -660,7 +669,7 @@ def run(ctx):
                     'options (capped: booleans full x others distance 1) x '
                     'dim 1-3 x with/without a solid x clean; tier B: compile '
                     '+ 2 steps for every configuration within Hamming '
-                    'distance 1 (quick: the default in 4 dim/solid cases, every deviation in 2-D with a solid) / 2 (thorough) of the default; '
+                    'distance 1 (quick: the default in 4 dim/solid cases, every deviation in 2-D with a solid, plus every pair of values of two enumerated options) / 2 (thorough) of the default; '
                     'non-trivial = configurations the scheme accepts')
     assumptions = ['constructor raising ValueError/NotImplementedError for a '
                    'dim/option combination = combination not documented as '
